@@ -36,6 +36,8 @@ type HarnessSpec struct {
 	Reach       []string            `json:"reach"`
 	Replace     map[string]string   `json:"replace"`
 	Native      string              `json:"native"` // "" (default replay) | "none"
+	NativeAttempts int              `json:"native_attempts"` // native replays to try when the schedule is racy (default 1)
+	SchedForks  *bool               `json:"sched_forks"`
 	NoDiff      bool                `json:"no_diff"` // skip the engine-vs-native differential
 	Note        string              `json:"note"`
 }
@@ -65,6 +67,8 @@ type Unit struct {
 	MapOrder    bool              `json:"map_order"`
 	Preemptions int               `json:"preemptions"`
 	EnvFires    int               `json:"env_fires"`
+	// SchedForks: explore every choice of the next runnable goroutine (default: round-robin).
+	SchedForks bool `json:"sched_forks"`
 	// NativeRewrite: textual substitutions applied (for native runs only) to files of the
 	// current /repo tree, e.g. time.NewTicker( -> verifNewTicker( so that the harness controls tickers.
 	NativeRewrite map[string][][2]string `json:"native_rewrite"`
@@ -393,6 +397,9 @@ func runHarness(p *Program, spec *Unit, hs *HarnessSpec, tier string, o *runOpts
 	if hs.EnvFires != nil {
 		hspec.EnvFires = *hs.EnvFires
 	}
+	if hs.SchedForks != nil {
+		hspec.SchedForks = *hs.SchedForks
+	}
 	nw := o.workers
 	if nw <= 0 {
 		nw = runtime.NumCPU()
@@ -415,7 +422,7 @@ func runHarness(p *Program, spec *Unit, hs *HarnessSpec, tier string, o *runOpts
 		wg.Add(1)
 		go func(w int) {
 			defer wg.Done()
-			solver, err := NewSolver([]string{"z3", "-in"}, ts.QueryTimeoutS*1000)
+			solver, err := NewSolver(solverArgv(), ts.QueryTimeoutS*1000)
 			if err != nil {
 				mu.Lock()
 				firstErr = err
